@@ -44,6 +44,8 @@ let run (t : string list) : string =
       let all_dr = ref [] in
       let boks = ref [] in
       let round_ix = ref [] in
+      let labels = ref [] in      (* Compaction: index labels at every round start of this process lifetime *)
+      let routs = ref [] in       (* output ids taken in the current planning round *)
       let walorder = ref [] in
       let allow_full = ref false in  (* a crash between a filling write and its rotation leaves a full file that the restarted writer resumes *)    (* conformance to the hypotheses of the C01 lockstep theorems *)
       let used = ref [] in        (* segment labels that existed earlier in this process lifetime *)
@@ -64,7 +66,8 @@ let run (t : string list) : string =
           match Stdlib.String.split_on_char ':' (Stdlib.String.sub op 2 (l - 2)) with
           | [o; ins; us] ->
               let b = { b_out = n_of_string o; b_inputs = nlist ins; b_uids = nlist us } in
-              boks := (if batch_ok !round_ix !kfan b then "1" else "0") :: !boks;
+              boks := (if batch_ok_fresh (!routs @ !labels) !round_ix !kfan b then "1" else "0") :: !boks;
+              routs := seen_batch !routs b;
               cur_batch := Some b;
               note_dirs ();
               if Stdlib.List.mem b.b_out !used && not (Stdlib.List.exists (fun d -> d.sid = b.b_out) !s.dirs)
@@ -72,7 +75,7 @@ let run (t : string list) : string =
               s := cstep !s (CWrite b)
           | _ -> failwith "bad cw"
         end
-        else if op = "cs" then round_ix := !s.index
+        else if op = "cs" then begin round_ix := !s.index; labels := seen_round_start !labels !s.index; routs := [] end
         else if op = "ci" then begin
           match !cur_batch with
           | Some b -> cur_dr := drained !s.index b; s := cstep !s (CIndex b)
@@ -93,6 +96,7 @@ let run (t : string list) : string =
           | [k; c; u] -> s := step !s (LStore { ek = n_of_string k; ectx = n_of_string c; euid = n_of_string u })
           | _ -> failwith "bad S"
         end else
+          let () = if op = "K" || op = "T" then begin labels := []; routs := [] end in   (* a crash / restart ends the lifetime *)
           let () = if op = "T" then begin used := []; stale := [] end else note_dirs () in
           (* the WAL thread rotates right after the write that fills a file: a write while
              entries_written >= cap, or a rotation while entries_written < cap, contradicts the model *)
